@@ -34,6 +34,7 @@ CLASS_TO_FINDING = [
     ("ident-dollar", "C14-ident-dollar"),
     ("ident-keyword", "F11-ident-keyword"),
     ("range-pow-leak", "C14-range-pow-leak"),
+    ("param-range", "C14-param-range"),
     ("doc-comment-split", "C14-doc-comment-split"),
     ("float-nonfinite", "F11-float-nonfinite"),
     ("float-integral", "F11-float-integral"),
@@ -76,6 +77,8 @@ def judge(ans, fmt_keywords):
         problems.append("idem")
     skipped_f9 = False
     for t, v in (ans.get("sql") or {}).items():
+        if t in (ans.get("sql_nondet") or []):
+            continue     # two compilations of the same source already differ (hash order; C11): outcome sets meet
         same, f9 = sql_same(v, (ans.get("sql2") or {}).get(t))
         skipped_f9 = skipped_f9 or f9
         if not same:
@@ -162,6 +165,8 @@ def run_oracle(ck, fmt_keywords):
             n_comp += 1
             ck.stat(stream, "compiles")
         problems, feats, ids = judge(a, fmt_keywords)
+        if a.get("sql_nondet"):
+            ck.stat(stream, "compile-nondeterministic(C11)-outcome-sets-meet")
         for f in sorted(feats):
             ck.stat(stream, "has:" + f)
         if "\n" in (a.get("fmt") or "").strip() and any(ln.startswith(" ") for ln in a["fmt"].split("\n")):
